@@ -138,6 +138,7 @@ type AttachOpts struct {
 	DisablePresence bool
 	Presence        map[string]string
 	Pre             func(d *document.Document) // local edits made before the attach request is built
+	SchemaKey       string                     // schema to attach with ("name@version"); an unknown one makes the attach fail half-way
 }
 
 // AttachBegin performs steps 01-02 of client.attachDocument and returns the in-flight response.
@@ -168,7 +169,7 @@ func (c *MClient) AttachBeginWith(ctx context.Context, d *document.Document, sto
 		return a, &Inflight{A: a, Err: err, Kind: "attach"}
 	}
 	res, err := c.rpc.AttachDocument(ctx, shard(connect.NewRequest(&api.AttachDocumentRequest{
-		ClientId: c.ID.String(), ChangePack: pb, DisableGc: o.DisableGC, DisablePresence: o.DisablePresence,
+		ClientId: c.ID.String(), ChangePack: pb, DisableGc: o.DisableGC, DisablePresence: o.DisablePresence, SchemaKey: o.SchemaKey,
 	}), c.APIKey, docKey))
 	if err != nil {
 		c.rec(CallRec{Kind: "attach", Client: c.ID, Req: pb, DisableGC: o.DisableGC, Err: err})
